@@ -1,6 +1,7 @@
 import Proofs.Lemmas.SSZTree
 import Proofs.Lemmas.SSZHtrSpec
 import Proofs.Lemmas.SSZBacking
+import Proofs.Lemmas.SSZLeaf
 import Proofs.Lemmas.SSZCanonical
 import Zrnt.Gen.SszFacts
 /-!
@@ -137,6 +138,28 @@ theorem tree_set_leaves (H : Hash2) (d : Nat) (t : CTree) (p : List Bool) (c : C
     (hp : CTree.Perfect d t) (hl : p.length = d) :
     (t.setLeaf H p c).leaves = t.leaves.set (CTree.pathIndex p) c :=
   leaves_set H d t p c hp hl
+
+/-! ## Hand-written merkleization of byte arrays
+
+`BLSPubkey`, `BLSSignature`, `KZGCommitment`, `LogsBloom`, `Version`, `Eth1Address`, … compute their root with
+bespoke code: slices of the array are copied into zeroed 32-byte roots and combined with `hFn` by hand. The
+extractor records that code as a tree (`Zrnt.Schema.Facts.HT`); `checkType` accepts the tree only if it is the
+perfect tree of depth `ceil(log2(ceil(n/32)))` whose leaves are the consecutive 32-byte slices followed by
+zero roots (`htOk`). -/
+
+open Zrnt.Schema.Facts in
+/-- **A hand-written hash tree accepted by the facts check is `hash_tree_root` of `Vector[byte, n]`.** -/
+theorem handwritten_htr_sound (H : Hash2) (n : Nat) (t : HT) (bs : Bytes) (hok : htOk n t = true) (hn : bs.length = n) :
+    htEval H bs t = htr H (.bytesN n) (.bytes bs) :=
+  htOk_sound H n t bs hok hn
+
+open Zrnt.Schema.Facts in
+/-- e.g. `BLSSignature.HashTreeRoot`: `hFn(hFn(s[0:32], s[32:64]), hFn(s[64:96], Root{}))` -/
+example : htOk 96 (.node (.node (.leaf 0 32) (.leaf 32 64)) (.node (.leaf 64 96) .zero)) = true := by decide +kernel
+open Zrnt.Schema.Facts in
+/-- a tree that forgets the zero sibling, or swaps two slices, is refused -/
+example : htOk 96 (.node (.node (.leaf 0 32) (.leaf 32 64)) (.leaf 64 96)) = false ∧
+    htOk 48 (.node (.leaf 32 48) (.leaf 0 32)) = false := by decide +kernel
 
 /-! ## The three hand-built backings denote the tree of the typed value
 
